@@ -551,7 +551,7 @@ class BasicContiguousVector<cntgs::Options<Option...>, Parameter...>
         }
         else
         {
-            return std::equal(begin(), end(), other.begin());
+            return size() == other.size() && std::equal(begin(), end(), other.begin());
         }
     }
     template <class... TOption>
